@@ -46,6 +46,13 @@ Definition capacity (w : nat) (k : nat) : nat := match k with 1%nat => 1%nat | _
 Definition null_oracle : oracle :=
   Oracle (fun _ => PNormFail) (fun _ => false) (fun _ => false) (fun _ => None).
 
+(* what the queue is told about a row whose text is not a URL: a single node that is unusable for
+   good - nothing of it will ever be fetched.  (The Go item keeps the status it was created with;
+   nobody reads it: the queue's finisher takes the id only.  The model writes the node as Failed, the
+   status the preprocessor gives a seed whose URL cannot be normalised, so that "reported only when
+   nothing is pending" reads the same for both ways of being reported.) *)
+Definition dead_leaf (u hops : N) : item := Node (Info 0 u Failed false hops 0) [].
+
 Definition init (w : nat) (c : cfg) (rows : list (N * N * N)) : pst :=
   PST w c rows 0 [] (repeat [] NPLACES) [] false.
 
@@ -77,7 +84,12 @@ Inductive label :=
 | LMove (k : nat) (id : N) (o : oracle) (* seed [id] moves from place k to place k+1 (k < 9);
                                            the move out of a worker place applies that stage;
                                            [o] is read only when k = 3: the oracle of the new pass *)
-| LFin (id : N).                       (* the finisher decides on seed [id] *)
+| LFin (id : N)                        (* the finisher decides on seed [id] *)
+| LDiscard.                            (* the source's consumer cannot parse the text of its first row
+                                          (models.URL.Parse = url.ParseRequestURI fails: an answer of the
+                                          outside world, chosen by the label like the oracles): the row is
+                                          reported to the queue as finished AT ONCE and is NOT handed to
+                                          ReceiveInsert (lq/consumer.go consumerSender, the [discard] arm) *)
 
 (* the stage applied when a seed leaves place k *)
 Definition stage (c : cfg) (k : nat) (o : oracle) (x : sd) : result sd :=
@@ -147,12 +159,37 @@ Definition step (s : pst) (l : label) : option pst :=
                   (upd 9 (fun _ => rest) (p_places s)) (p_finished s ++ [(s_id x, t)]) false)
       end
     end
+  | LDiscard =>
+    (* no token is taken, nothing enters the reactor: only the queue hears of this row *)
+    match p_src s with
+    | [] => None
+    | (id, u, h) :: r =>
+      Some (PST (p_w s) (p_cfg s) r (p_tokens s) (p_table s) (p_places s)
+                (p_finished s ++ [(id, dead_leaf u h)]) false)
+    end
   end.
 
 Fixpoint run (s : pst) (ls : list label) : option pst :=
   match ls with
   | [] => Some s
   | l :: r => match step s l with Some s' => run s' r | None => None end
+  end.
+
+(* the finish reports the queue receives along an execution (the trace-level reading of "reported
+   back to the queue"): label [l] taken in state [s] delivers a report for these row ids *)
+Definition report_of (s : pst) (l : label) : list N :=
+  match l with
+  | LDiscard => match p_src s with (id, _, _) :: _ => [id] | [] => [] end
+  | LFin id => match take id (place 9 s) with
+               | Some (x, _) => match fin_worker (s_tree x) with Ok (_, DFinish) => [s_id x] | _ => [] end
+               | None => []
+               end
+  | _ => []
+  end.
+Fixpoint reports (s : pst) (ls : list label) : list N :=
+  match ls with
+  | [] => []
+  | l :: r => match step s l with Some s' => report_of s l ++ reports s' r | None => [] end
   end.
 
 Definition in_flight (s : pst) : list sd := concat (p_places s).
